@@ -61,6 +61,9 @@ class Server:
         self.log = []            # points: (method, path, range header)
         self.deviations = {}     # point index -> answer name
         self.applied = []
+        # an answer name ending in "*" is persistent: it is also given to
+        # every later request for the same path (until `sticky` is cleared)
+        self.sticky = {}
 
     # ---- static file resolution ------------------------------------------
     def resolve(self, path):
@@ -87,14 +90,23 @@ class Server:
         rng = headers.get("Range")
         self.log.append((method, path, rng))
         dev = self.deviations.get(idx)
+        if dev is not None and dev.endswith("*"):
+            dev = dev[:-1]
+            self.sticky[path] = dev
+        if dev is None:
+            dev = self.sticky.get(path)
         if dev is not None:
             self.applied.append((idx, dev))
         if dev == "connection-error":
             raise requests.exceptions.ConnectionError("sim: connection reset")
         if dev == "timeout":
             raise requests.exceptions.ReadTimeout("sim: read timed out")
-        if dev in ("404", "403", "500", "503"):
-            return int(dev), {"Content-Length": "0"}, b"", None
+        if dev is not None and dev.isdigit():
+            # error pages have a body, like real servers' ones
+            page = b"<html>error %s</html>" % dev.encode()
+            return int(dev), {"Content-Length": str(len(page)),
+                              "Content-Type": "text/html"}, \
+                (b"" if method == "HEAD" else page), None
         res = self.resolve(path)
         if res is None:
             return 404, {"Content-Length": "0"}, b"", None
